@@ -82,6 +82,7 @@ type Resp struct {
 	Hmetagen   int64      `json:"hmetagen"`
 	Hctype     j.B        `json:"hctype"`
 	Henc       j.B        `json:"henc"` // Content-Encoding of a media reply
+	Hcd        j.B        `json:"hcd"`  // Content-Disposition of a media reply
 	View       View       `json:"view"`
 	HasView    bool       `json:"hasView"`
 	Body       j.B        `json:"body"`
@@ -193,10 +194,10 @@ var opFields = map[string][]string{
 	"GetBucket":      {"b", "cid"},
 	"Batch":          {"parts"},
 	"DeleteBucket":   {"b"},
-	"Upload":         {"b", "n", "proto", "gzip", "content", "md5", "decl", "attrs", "meta", "conds", "gen"},
+	"Upload":         {"b", "n", "proto", "gzip", "content", "md5", "decl", "attrs", "meta", "conds", "gen", "isgz", "plain"},
 	"ResumableStart": {"b", "n", "decl", "attrs", "meta", "conds", "id"},
 	"ResumablePut":   {"id", "ref", "lo", "total", "data", "md5full", "gen", "method", "no308"},
-	"GetMedia":       {"b", "n", "form", "slash"},
+	"GetMedia":       {"b", "n", "form", "slash", "acceptGz"},
 	"GetMeta":        {"b", "n", "slash", "cid"},
 	"Patch":          {"b", "n", "attrs", "meta", "conds", "badBody", "junk", "cid"},
 	"Delete":         {"b", "n", "conds", "cid"},
